@@ -20,7 +20,8 @@ META = {
         'Runtime oracle: every INKEY$, INPUT and INPUT$ result and every PEEK of the pointer words and of the '
         'slots between head and tail is compared with an independent FIFO/ring model fed the same history. '
         'Directed core (both tiers, seed-independent): the D12 reproducer (5 keys, read 1, clearing POKE); the '
-        'clearing POKE at every (ring position, fill level) pair (16 x 16, exhaustive); bursts of 14..18 keys at '
+        'clearing POKE at every (ring position, fill level) pair (16 x 16, exhaustive); POKEs moving the head forward / the tail '
+        'back by every k inside the waiting range at 4 ring positions x 4 fill levels; bursts of 14..18 keys at '
         'every ring position. Random histories: bursts of 1-25 keys, reads, clears, pointer peeks and full '
         'sweeps, half as direct statements and half as stored programs with keys delivered at statement '
         'boundaries.'),
@@ -31,7 +32,7 @@ META = {
         'counted), where in the ring an empty buffer starts (adopted from the first observation, then tracked with '
         'ring arithmetic), the low byte of an extended key (0 or 0xE0 accepted). INPUT is only issued when an Enter '
         'is waiting behind plain alphanumerics; INPUT$(n) only for n waiting single-byte keys; function keys '
-        '(macro expansion), Ctrl+C/Break/Pause keys and POKEs of other pointer values are not generated. After the '
+        '(macro expansion), Ctrl+C/Break/Pause keys and POKEs that move a pointer outside the waiting range (or to an odd / non-slot value) are not generated. After the '
         'first divergence a history is abandoned (the model and the interpreter no longer share a state).'),
     'rule': ('case = one history (list of key-burst / read / INPUT / INPUT$ / clear / peek operations, run mode); distinct by '
              'that list; non-trivial = at least one keystroke was read back or inspected through PEEK'),
@@ -41,12 +42,20 @@ META = {
     'exhaustive': {
         'quick': 'directed core only: clearing POKE at all 16 ring positions x all 16 fill levels (0..15), bursts of 14..18 keys at all 16 ring positions; histories are sampled',
         'thorough': 'directed core only: clearing POKE at all 16 ring positions x all 16 fill levels (0..15), bursts of 14..18 keys at all 16 ring positions; histories are sampled'},
-    'require_counters': {'any': ['keys_dropped_at_full', 'ring_wraps', 'clear_pokes_nonempty', 'peek_sweeps',
+    'require_counters': {'any': ['keys_dropped_at_full', 'ring_wraps', 'clear_pokes_nonempty', 'partial_pokes_leaving_keys_waiting', 'peek_sweeps',
                                  'reads_nonempty', 'reads_empty']},
     'timeout': {'quick': 900, 'thorough': 7200},
 }
 
 CLEAR_KEY = 'kbd:clear-poke-leaves-keys'
+PARTIAL_KEY = 'kbd:partial-pointer-poke-disagrees-with-reads'
+
+
+def poke_stmt(which, k):
+    """POKE moving the head forward by k slots / the tail back by k slots, in ring arithmetic."""
+    if which == 'h':
+        return b'POKE 1050,30+(((PEEK(1050)-30)\\2+%d) MOD 16)*2' % k
+    return b'POKE 1052,30+(((PEEK(1052)-30)\\2+%d) MOD 16)*2' % (16 - k)
 
 # ---------------------------------------------------------------------------------------
 # keystrokes: [unicode char sequence, scancode or None]; expected byte string by cp437
@@ -128,6 +137,15 @@ def gen_history(rng, ext, with_clear):
                     n += 1
                 m.read_n(n)
                 ops.append(['n', n])
+        elif r < 0.80 and with_clear and waiting and rng.random() < 0.45:
+            # partial skip: head forward / tail back within the waiting range
+            k = rng.randint(0, waiting)
+            if rng.random() < 0.5:
+                m.skip_head(k)
+                ops.append(['h', k])
+            else:
+                m.pull_tail(k)
+                ops.append(['t', k])
         elif r < 0.80 and with_clear:
             m.clear()
             ops.append(['c'])
@@ -185,6 +203,16 @@ class Runner(object):
         if got == b'':
             raise Divergence('waiting-key-lost', '%s returned "" although %r is waiting (%d waiting)' % (what, exp, len(m.fifo) + 1))
         raise Divergence('wrong-key-order', '%s returned %r, oldest waiting keystroke is %r' % (what, got, exp))
+
+    def _partial(self, m, which, k):
+        if which == 'h':
+            m.skip_head(k)
+        else:
+            m.pull_tail(k)
+        m.last_poke = 'partial'
+        self.res.count('partial_pointer_pokes')
+        if 0 < k and m.fifo:
+            self.res.count('partial_pokes_leaving_keys_waiting')
 
     def _cmp_view(self, m, mem, full):
         wraps = m.wraps
@@ -256,6 +284,12 @@ class Runner(object):
             if n:
                 self.res.count('clear_pokes_nonempty')
             m.cleared = True
+            m.last_poke = 'clear'
+        elif c in ('h', 't'):
+            out = box.ex(poke_stmt(c, op[1]))
+            if h.err_of(out)[0]:
+                raise Divergence('statement-error', '%s -> %r' % (poke_stmt(c, op[1]), out))
+            self._partial(m, c, op[1])
         elif c == 'p':
             # a statement first, so that pending keystrokes are taken in; then PEEK through the same function
             box.ex(b'DEF SEG=0')
@@ -305,6 +339,8 @@ class Runner(object):
                 body.append(('s', b'R$(%d)=INPUT$(%d)' % (nr, op[1]), ('n', nr, op[1])))
             elif c == 'c':
                 body.append(('s', b'POKE 1050,PEEK(1052)', ('c',)))
+            elif c in ('h', 't'):
+                body.append(('s', poke_stmt(c, op[1]), (c, op[1])))
             elif c == 'p':
                 addrs = list(range(1050, 1086)) if op[1] else [1050, 1051, 1052, 1053]
                 first = npk
@@ -372,6 +408,9 @@ class Runner(object):
                     if n:
                         self.res.count('clear_pokes_nonempty')
                     m.cleared = True
+                    m.last_poke = 'clear'
+                elif c in ('h', 't'):
+                    self._partial(m, c, act[1])
                 elif c == 'p':
                     mem = dict((a, P[act[1] + i]) for i, a in enumerate(act[2]))
                     self._cmp_view(m, mem, act[3])
@@ -385,6 +424,7 @@ class Runner(object):
         res = self.res
         m = rk.Kbd()
         m.cleared = False
+        m.last_poke = None
         case = {'mode': mode, 'ops': ops, 'origin': tag}
         try:
             if mode == 'direct':
@@ -392,7 +432,10 @@ class Runner(object):
             else:
                 self.run_program(ops, m)
         except Divergence as d:
-            if m.cleared and d.kind != 'statement-error':
+            if m.last_poke == 'partial' and d.kind != 'statement-error':
+                key = PARTIAL_KEY
+                text = 'after a POKE moving the head forward / the tail back within the waiting keys: ' + d.text
+            elif m.last_poke == 'clear' and d.kind != 'statement-error':
                 key = CLEAR_KEY
                 text = 'after POKE 1050,PEEK(1052): ' + d.text
             else:
@@ -438,6 +481,18 @@ def directed_cases():
                 ops += [['k', _keys(u'abcdefghijklmno'[:fill])]]
             ops += [['p', 0], ['c'], ['p', 1], ['r', 2], ['k', _keys(u'XYZ')], ['p', 1], ['r', 4], ['p', 0]]
             out.append(('clear@%d/%d' % (pos, fill), ops))
+    # partial skips: head forward by k / tail back by k slots inside the waiting range; what INKEY$ then delivers
+    # must be what the pointers and the slots between them show
+    for pos in (0, 5, 11, 14):
+        for fill in (2, 6, 9, 15):
+            for k in range(1, fill):
+                for which in ('h', 't'):
+                    ops = []
+                    if pos:
+                        ops += [['k', _keys(u'q' * pos)], ['r', pos]]
+                    ops += [['k', _keys(u'abcdefghijklmno'[:fill])], ['p', 0], [which, k], ['p', 1], ['r', 2],
+                            ['k', _keys(u'XYZ')], ['p', 1], ['r', 17], ['p', 0]]
+                    out.append(('poke-%s%d@%d/%d' % (which, k, pos, fill), ops))
     # bursts around the capacity at every ring position: what is held, what is dropped, in which order
     for pos in range(16):
         for n in (14, 15, 16, 17, 18):
